@@ -286,10 +286,15 @@ let uncache x =
 
 let hashed x =
   match x.cached with
-  | Some b -> (match b with
-               | [] -> false
-               | _ :: _ -> true)
+  | Some _ -> true
   | None -> false
+
+(** val store : bool -> bytes -> bytes option **)
+
+let store old_truthy h =
+  if old_truthy then (match h with
+                      | [] -> None
+                      | _ :: _ -> Some h) else Some h
 
 (** val kget : bytes -> (bytes * nat) list -> nat option **)
 
@@ -437,108 +442,105 @@ let compute nH rd n0 s =
         (nH x.data (snd r)))))
 
 (** val update_hash :
-    (bytes -> entry list -> bytes) -> nat -> bool -> nat -> heap ->
+    (bytes -> entry list -> bytes) -> bool -> nat -> bool -> nat -> heap ->
     (heap * bytes) res **)
 
-let rec update_hash nH fuel force n0 s =
+let rec update_hash nH old_truthy fuel force n0 s =
   match fuel with
   | O -> Err EFuel
   | S f ->
     bind (get s n0) (fun x ->
       match x.cached with
-      | Some b0 ->
-        (match b0 with
-         | [] ->
-           bind (if force then inval n0 s else Ok s) (fun s1 ->
-             bind
-               (fold_res (fun k t ->
-                 bind (update_hash nH f force k t) (fun r -> Ok (fst r)))
-                 (map snd x.kids) s1) (fun s2 ->
-               bind (compute nH (update_hash nH f false) n0 s2) (fun r -> Ok
-                 ((upd n0 (set_cached (Some (snd r))) (fst r)), (snd r)))))
-         | b :: h ->
-           if force
-           then bind (if force then inval n0 s else Ok s) (fun s1 ->
-                  bind
-                    (fold_res (fun k t ->
-                      bind (update_hash nH f force k t) (fun r -> Ok (fst r)))
-                      (map snd x.kids) s1) (fun s2 ->
-                    bind (compute nH (update_hash nH f false) n0 s2)
-                      (fun r -> Ok
-                      ((upd n0 (set_cached (Some (snd r))) (fst r)), 
-                      (snd r)))))
-           else Ok (s, (b :: h)))
+      | Some h ->
+        if force
+        then bind (if force then inval n0 s else Ok s) (fun s1 ->
+               bind
+                 (fold_res (fun k t ->
+                   bind (update_hash nH old_truthy f force k t) (fun r -> Ok
+                     (fst r))) (map snd x.kids) s1) (fun s2 ->
+                 bind (compute nH (update_hash nH old_truthy f false) n0 s2)
+                   (fun r -> Ok
+                   ((upd n0 (set_cached (store old_truthy (snd r))) (fst r)),
+                   (snd r)))))
+        else Ok (s, h)
       | None ->
         bind (if force then inval n0 s else Ok s) (fun s1 ->
           bind
             (fold_res (fun k t ->
-              bind (update_hash nH f force k t) (fun r -> Ok (fst r)))
-              (map snd x.kids) s1) (fun s2 ->
-            bind (compute nH (update_hash nH f false) n0 s2) (fun r -> Ok
-              ((upd n0 (set_cached (Some (snd r))) (fst r)), (snd r))))))
+              bind (update_hash nH old_truthy f force k t) (fun r -> Ok
+                (fst r))) (map snd x.kids) s1) (fun s2 ->
+            bind (compute nH (update_hash nH old_truthy f false) n0 s2)
+              (fun r -> Ok
+              ((upd n0 (set_cached (store old_truthy (snd r))) (fst r)),
+              (snd r))))))
 
 (** val read_hash :
-    (bytes -> entry list -> bytes) -> nat -> heap -> (heap * bytes) res **)
+    (bytes -> entry list -> bytes) -> bool -> nat -> heap -> (heap * bytes)
+    res **)
 
-let read_hash nH n0 s =
-  update_hash nH (S (length s)) false n0 s
+let read_hash nH old_truthy n0 s =
+  update_hash nH old_truthy (S (length s)) false n0 s
 
 (** val force_hash :
-    (bytes -> entry list -> bytes) -> nat -> heap -> (heap * bytes) res **)
+    (bytes -> entry list -> bytes) -> bool -> nat -> heap -> (heap * bytes)
+    res **)
 
-let force_hash nH n0 s =
-  update_hash nH (S (length s)) true n0 s
+let force_hash nH old_truthy n0 s =
+  update_hash nH old_truthy (S (length s)) true n0 s
 
 (** val entries :
-    (bytes -> entry list -> bytes) -> nat -> heap -> (heap * entry list) res **)
+    (bytes -> entry list -> bytes) -> bool -> nat -> heap -> (heap * entry
+    list) res **)
 
-let entries nH n0 s =
+let entries nH old_truthy n0 s =
   bind (get s n0) (fun x ->
     match x.kind with
     | KDir ->
       (match x.ecache with
        | Some es -> Ok (s, es)
        | None ->
-         bind (read_kids (read_hash nH) x.kids s) (fun r -> Ok
+         bind (read_kids (read_hash nH old_truthy) x.kids s) (fun r -> Ok
            ((upd n0 (set_ecache (Some (snd r))) (fst r)), (snd r))))
     | _ -> Err EAttr)
 
 (** val to_model :
-    (bytes -> entry list -> bytes) -> nat -> heap -> (heap * entry list) res **)
+    (bytes -> entry list -> bytes) -> bool -> nat -> heap -> (heap * entry
+    list) res **)
 
-let to_model nH n0 s =
+let to_model nH old_truthy n0 s =
   bind (get s n0) (fun x ->
     match x.kind with
     | KDir ->
       (match x.mcache with
        | Some es -> Ok (s, es)
        | None ->
-         bind (read_kids (read_hash nH) x.kids s) (fun r -> Ok
+         bind (read_kids (read_hash nH old_truthy) x.kids s) (fun r -> Ok
            ((upd n0 (set_mcache (Some (snd r))) (fst r)), (snd r))))
     | _ -> Err EAttr)
 
 (** val collect_node :
-    (bytes -> entry list -> bytes) -> nat -> heap -> (heap * nat list) res **)
+    (bytes -> entry list -> bytes) -> bool -> nat -> heap -> (heap * nat
+    list) res **)
 
-let collect_node nH n0 s =
+let collect_node nH old_truthy n0 s =
   bind (get s n0) (fun x ->
     if x.collected
     then Ok (s, [])
-    else bind (read_hash nH n0 (upd n0 (set_collected true) s)) (fun r -> Ok
-           ((fst r), (n0 :: []))))
+    else bind (read_hash nH old_truthy n0 (upd n0 (set_collected true) s))
+           (fun r -> Ok ((fst r), (n0 :: []))))
 
 (** val collect :
-    (bytes -> entry list -> bytes) -> nat -> nat -> heap -> (heap * nat list)
-    res **)
+    (bytes -> entry list -> bytes) -> bool -> nat -> nat -> heap ->
+    (heap * nat list) res **)
 
-let rec collect nH fuel n0 s =
+let rec collect nH old_truthy fuel n0 s =
   match fuel with
   | O -> Err EFuel
   | S f ->
     bind (get s n0) (fun x ->
-      bind (collect_node nH n0 s) (fun r ->
+      bind (collect_node nH old_truthy n0 s) (fun r ->
         fold_res (fun k acc ->
-          bind (collect nH f k (fst acc)) (fun r' -> Ok ((fst r'),
+          bind (collect nH old_truthy f k (fst acc)) (fun r' -> Ok ((fst r'),
             (app (snd acc) (snd r'))))) (map snd x.kids) r))
 
 (** val reset_collect : nat -> nat -> heap -> heap res **)
@@ -795,9 +797,9 @@ let of_mut = function
               | None -> (s', OutUnit))
 
 (** val step :
-    (bytes -> entry list -> bytes) -> bool -> heap -> op -> heap * out **)
+    (bytes -> entry list -> bytes) -> bool -> bool -> heap -> op -> heap * out **)
 
-let step nH by_id s = function
+let step nH by_id old_truthy s = function
 | ONew (k, d) -> ((app s ((new_node k d) :: [])), (OutHandle (length s)))
 | OSet (p, key, c) ->
   (match setitem s p key c with
@@ -813,23 +815,24 @@ let step nH by_id s = function
   (match contains_ s p key with
    | Ok b -> (s, (OutBool b))
    | Err e -> (s, (OutErr e)))
-| OHash n0 -> of_res s (read_hash nH n0 s) (fun x -> OutHash x)
-| OForce n0 -> of_res s (force_hash nH n0 s) (fun x -> OutHash x)
-| OEntries n0 -> of_res s (entries nH n0 s) (fun x -> OutEntries x)
-| OToModel n0 -> of_res s (to_model nH n0 s) (fun x -> OutEntries x)
+| OHash n0 -> of_res s (read_hash nH old_truthy n0 s) (fun x -> OutHash x)
+| OForce n0 -> of_res s (force_hash nH old_truthy n0 s) (fun x -> OutHash x)
+| OEntries n0 -> of_res s (entries nH old_truthy n0 s) (fun x -> OutEntries x)
+| OToModel n0 ->
+  of_res s (to_model nH old_truthy n0 s) (fun x -> OutEntries x)
 | OCollect n0 ->
-  of_res s (collect nH (S (length s)) n0 s) (fun x -> OutNodes x)
+  of_res s (collect nH old_truthy (S (length s)) n0 s) (fun x -> OutNodes x)
 | OReset n0 ->
   (match reset_collect (S (length s)) n0 s with
    | Ok s' -> (s', OutUnit)
    | Err e -> (s, (OutErr e)))
 
 (** val run :
-    (bytes -> entry list -> bytes) -> bool -> heap -> op list -> heap * out
-    list **)
+    (bytes -> entry list -> bytes) -> bool -> bool -> heap -> op list ->
+    heap * out list **)
 
-let rec run nH by_id s = function
+let rec run nH by_id old_truthy s = function
 | [] -> (s, [])
 | o :: h' ->
-  let (s1, x) = step nH by_id s o in
-  let (s2, xs) = run nH by_id s1 h' in (s2, (x :: xs))
+  let (s1, x) = step nH by_id old_truthy s o in
+  let (s2, xs) = run nH by_id old_truthy s1 h' in (s2, (x :: xs))
